@@ -24,7 +24,7 @@ ASSUMPTIONS = [
     "'cut off by a disconnection' is recognised on the wire: a subscribe request written on a connection that ended before its response; the deciding profile never answers subscription requests with HTTP 4xx",
     "events on a connection after an injected corruption are out of scope here (C05)",
 ]
-TIERS = {"quick": {"runs": 5000, "wall": 55}, "thorough": {"runs": 300000, "wall": 1500}}
+TIERS = {"quick": {"runs": 12000, "wall": 55}, "thorough": {"runs": 300000, "wall": 1500}}
 
 
 def gen_plan(seed: int, tier: str) -> dict:
